@@ -705,11 +705,12 @@ func c16Check(c c16Case, s *c16State, res *c16Result, par bool) {
 // container (batch exactly at the threshold, executed by the background flusher,
 // closing Add called before Wait returned, i.e. before or while Wait ran) and
 // that the flusher had not yet received when Wait returned (its execution
-// starts after Wait's return): the batch was in the hand-over (commander
-// channel / blocked adder) when Wait looked at the container and at the
-// WaitGroup, and it is counted in neither. A batch that was already being
-// executed when Wait returned, a batch below the threshold and a batch executed
-// by a Flush/Wait caller are NOT matched.
+// starts after Wait's return; exec-parallel: after Wait's call, see below): the
+// batch was in the hand-over (commander channel / blocked adder) when Wait
+// looked at the container and at the WaitGroup, and it is counted in neither.
+// A batch that was already being executed when Wait was called (bubbles: when
+// Wait returned), a batch below the threshold and a batch executed by a
+// Flush/Wait caller are NOT matched.
 func c16KnownHandover(c c16Case, par bool, w *c16Op, b *c16Batch, added map[int]*c16Op) string {
 	if b.harness || len(b.ids) == 0 || !c.atThreshold(b.ids) {
 		return ""
